@@ -87,6 +87,17 @@ const CONTEXTS: &[(&str, &str)] = &[
     ("obs", "VERSION 5.8 ;\nMACRO m OBS"),
     ("density", "VERSION 5.8 ;\nMACRO m DENSITY"),
     ("density-layer", "VERSION 5.8 ;\nMACRO m DENSITY LAYER l ;"),
+    // blocks closed while still empty, inside a macro / pin named like the name token of the alphabet (`nm`), so that
+    // `END nm` completes them and the library is accepted and written
+    ("empty-density", "VERSION 5.8 ;\nMACRO nm DENSITY END"),
+    ("empty-obs", "VERSION 5.8 ;\nMACRO nm OBS END"),
+    ("empty-port", "VERSION 5.8 ;\nMACRO nm PIN nm PORT END"),
+    ("empty-pin", "VERSION 5.8 ;\nMACRO nm PIN nm"),
+    ("empty-propertydefinitions", "VERSION 5.8 ;\nPROPERTYDEFINITIONS END PROPERTYDEFINITIONS"),
+    ("empty-units", "VERSION 5.8 ;\nUNITS END UNITS"),
+    ("empty-site", "VERSION 5.8 ;\nSITE nm"),
+    ("empty-via", "VERSION 5.8 ;\nVIA nm"),
+    ("empty-statements", "VERSION 5.8 ;\nMACRO nm SYMMETRY ; FOREIGN nm ; SITE nm ; CLASS CORE ;"),
 ];
 
 fn raw_strings(src: &str) -> Vec<String> {
